@@ -70,6 +70,21 @@ def o62(ctx):
     if not (isinstance(r.ret, Seq) and len(r.ret.items) == 2):
         raise Unsupported("angular_distance does not return (angle, dist)", fn)
     got = to_term(r.ret.items[0])
+    # near-identical pairs: the distance is zero only for equal rotations (no threshold may swallow small angles)
+    from scipy.spatial.transform import Rotation as _R
+    rng_ = np.random.default_rng(tm.SEED + 62)
+    near = []
+    for d_ in (0.004, 0.01, 0.02, 0.03, 0.05, 0.2, 1.0):
+        R1_ = _R.random(random_state=int(rng_.integers(0, 2 ** 31)))
+        ax_ = rng_.normal(size=3)
+        ax_ /= np.linalg.norm(ax_)
+        R2_ = R1_ * _R.from_rotvec(np.radians(d_) * ax_)
+        near.append({"R1": R1_.as_matrix(), "R2": R2_.as_matrix(), "__salt__": 0.5})
+    vn = tm.equivalent(got, true_angle(sym("R1"), sym("R2")), n=len(near), extra_envs=near, tol=1e-6, seed_tag=q + "near", need=len(near))
+    ctx.count(len(near), {"near-identical pairs (0.004 .. 1 degree)": len(near), "equal": bool(vn)})
+    if not vn:
+        ctx.finding(q, "angle of near-identical rotations", "rotations a few thousandths of a degree apart must get their true (non-zero) distance: "
+                    "the distance is zero only for equal rotations", fn, m, witness=vn.witness)
     v = tm.equivalent(got, true_angle(sym("R1"), sym("R2")), samplers=RS, n=40, tol=1e-5, seed_tag=q)
     ctx.count(1, {"extracted": tm.show(got)[:200], "specified": "degrees(arccos((trace(R1^T R2) - 1) / 2))", "equal": bool(v)})
     if not v:
